@@ -1,1 +1,90 @@
-// placeholder
+//! C14 — track table is coherent: code, wire bytes, flags and licence agree.
+use crate::common::*;
+use crate::gen_tables::*;
+use binrw::{BinRead, BinWrite};
+use insim_core::track::Track;
+use std::io::Cursor;
+
+/// all 2^48 six-byte values: whatever decodes re-encodes to the identical bytes (so no two byte
+/// strings decode to one configuration), and the accessors agree with the wire bytes
+#[kani::proof]
+#[kani::unwind(8)]
+#[kani::stub(alloc::fmt::format, stub_format)]
+fn c14_wire_to_track() {
+    let b: [u8; 6] = kani::any();
+    let mut c = Cursor::new(&b[..]);
+    let r = Track::read_le(&mut c);
+    if let Ok(t) = &r {
+        let mut out = [0xAAu8; 6];
+        let mut w = Cursor::new(&mut out[..]);
+        assert!(t.write_le(&mut w).is_ok(), "C14:decoded track re-encodes");
+        let i: usize = kani::any();
+        kani::assume(i < 6);
+        assert!(out[i] == b[i], "C14:re-encoded bytes identical");
+        // shape: letter letter digit [digit] [letter], NUL padded
+        assert!(b[0].is_ascii_uppercase() && b[1].is_ascii_uppercase() && b[2].is_ascii_digit(), "C14:wire form shape");
+        assert!(b[5] == 0, "C14:wire form is NUL terminated");
+        let code = t.code();
+        let cb = code.as_bytes();
+        assert!(cb.len() >= 3 && cb.len() <= 5, "C14:code length");
+        if i < cb.len() { assert!(b[i] == cb[i], "C14:wire form is the short code"); } else { assert!(b[i] == 0, "C14:wire form NUL padded"); }
+        let last = cb[cb.len() - 1];
+        assert!(t.is_reverse() == (last == b'R' || last == b'Y'), "C14:reversed iff code ends in R or Y");
+        assert!(t.is_open() == (last == b'X' || last == b'Y'), "C14:open iff code ends in X or Y");
+        if t.is_open() {
+            assert!(t.distance_mile().is_none(), "C14:open configuration has no lap distance (miles)");
+            assert!(t.distance_km().is_none(), "C14:open configuration has no lap distance (km)");
+        }
+        kani::cover!(t.is_open() && t.is_reverse(), "a Y configuration decoded");
+        kani::cover!(cb.len() == 5, "five-character code decoded");
+        std::mem::forget(code);
+    }
+    std::mem::forget(r);
+}
+
+/// every configuration (index -> variant function generated from the enum declaration)
+#[kani::proof]
+#[kani::unwind(8)]
+#[kani::stub(alloc::fmt::format, stub_format)]
+fn c14_track_to_wire() {
+    let i: usize = kani::any();
+    kani::assume(i < TRACK_COUNT);
+    let t = track_by_index(i);
+    let mut out = [0xAAu8; 6];
+    let mut w = Cursor::new(&mut out[..]);
+    assert!(t.write_le(&mut w).is_ok(), "C14:every configuration encodes");
+    assert!(w.position() == 6, "C14:wire form is 6 bytes");
+    let code = t.code();
+    let cb = code.as_bytes();
+    assert!(cb.len() >= 3 && cb.len() <= 5, "C14:code length");
+    let j: usize = kani::any();
+    kani::assume(j < 6);
+    if j < cb.len() { assert!(out[j] == cb[j], "C14:wire form is the short code"); } else { assert!(out[j] == 0, "C14:wire form NUL padded"); }
+    let mut c = Cursor::new(&out[..]);
+    let r = Track::read_le(&mut c);
+    assert!(matches!(&r, Ok(x) if *x == t), "C14:wire form decodes to the same configuration");
+    std::mem::forget(r);
+    let last = cb[cb.len() - 1];
+    assert!(t.is_reverse() == (last == b'R' || last == b'Y'), "C14:reversed iff code ends in R or Y");
+    assert!(t.is_open() == (last == b'X' || last == b'Y'), "C14:open iff code ends in X or Y");
+    if t.is_open() {
+        assert!(t.distance_mile().is_none() && t.distance_km().is_none(), "C14:open configuration has no lap distance");
+    }
+    let first = track_by_index(track_area_first_index(i));
+    assert!(t.license() == first.license(), "C14:one licence per track area");
+    kani::cover!(i == TRACK_COUNT - 1, "last configuration reached");
+    std::mem::forget(code);
+}
+
+/// vacuity twin
+#[kani::proof]
+#[kani::unwind(8)]
+#[kani::stub(alloc::fmt::format, stub_format)]
+fn c14_twin_must_fail() {
+    let b: [u8; 6] = kani::any();
+    let mut c = Cursor::new(&b[..]);
+    let r = Track::read_le(&mut c);
+    let ok = r.is_ok();
+    std::mem::forget(r);
+    assert!(!ok || b[3] == 0, "TWIN:only three-character codes decode");
+}
